@@ -652,6 +652,10 @@ pub fn run_scenario(subject: &Subject, key_seed: u64, prefix: &[String]) -> Outc
     let prefix: Vec<String> = prefix.to_vec();
     match on_fresh_thread(key_seed, move || {
         for p in &prefix {
+            if p == "@failed-imports" {
+                failed_imports();
+                continue;
+            }
             match p.strip_prefix("@subject ") {
                 Some(j) => {
                     if let Ok(v) = serde_json::from_str::<Value>(j) {
@@ -670,6 +674,24 @@ pub fn run_scenario(subject: &Subject, key_seed: u64, prefix: &[String]) -> Outc
     }
 }
 
+/// "Unrelated work" that fails: on the current thread, imports of every module path the corpus uses
+/// while those files are ill-formed (syntax error, then type error). The files are back to normal
+/// when the subject runs: a file's earlier content is not an input of a later parse.
+fn failed_imports() {
+    for bad in ["a := := 1", "a := 1 + \"x\"", "a := [1][5]"] {
+        let mut sim_os = os::SimOs::new();
+        for path in ["lib", "modp", "modu"] {
+            sim_os.nodes.insert(path.into(), os::Node::File(bad.as_bytes().to_vec()));
+        }
+        os::install(sim_os);
+        let interp = Interpreter::with_stdlib();
+        for path in ["lib", "modp", "modu"] {
+            let _ = guarded(|| Code::parse(&interp, &format!("m := import \"{path}\"; m")).map(|c| c.exec()));
+        }
+        os::uninstall();
+    }
+}
+
 fn scenario_json(boot_seed: u64, subject: &Subject, key_seed: u64, prefix: &[String]) -> Value {
     json!({"sim": "hashsim", "boot_seed": boot_seed, "subject": subject.to_json(), "key_seed": key_seed, "prefix": prefix})
 }
@@ -683,12 +705,14 @@ pub fn prefix_for(plan: &Plan, seed: u64, idx: usize, k: usize) -> Vec<String> {
     let mut rng = Rng::new(derive_n(seed, "prefix", (idx as u64) << 16 | k as u64));
     let n = 1 + rng.below(3);
     (0..n)
-        .map(|_| match rng.below(4) {
+        .map(|_| match rng.below(5) {
             // the subject itself / its neighbours first, on the same thread: a thread-local or
             // content-keyed memo answers a later, slightly different query from an earlier one
             0 => format!("@subject {}", plan.subjects[idx].to_json()),
             1 => format!("@subject {}", plan.subjects[(idx + 1) % plan.subjects.len()].to_json()),
             2 => format!("@subject {}", plan.subjects[(idx + plan.subjects.len() - 1) % plan.subjects.len()].to_json()),
+            // failing work first: imports of the corpus's module paths while those files are ill-formed
+            3 => "@failed-imports".to_string(),
             _ => plan.prefix_pool[rng.below(plan.prefix_pool.len())].text.clone(),
         })
         .collect()
